@@ -52,6 +52,13 @@ theorem rename_key_coherent (old new : Path) (t : M) (hc : Coherent t) :
     Coherent (renamePath old new t).1 ∧ (renamePath old new t).1.shape = t.shape :=
   ⟨(renamePath_spec old new t hc).2.2, (renamePath_spec old new t hc).1⟩
 
+/-- `update(payload)` with a (nested) dict payload: tensors are validated where they land, nested dicts are converted by the
+tensordict that receives them (`_convert_to_tensordict`) or handed to the nested tensordict they meet; wherever the update
+stops (an ill-shaped tensor, a key through a tensor, …) the tree is coherent. -/
+theorem update_coherent (items : List (Path × PV)) (t : M) (hc : Coherent t) :
+    Coherent (updateC (updMeasureC items) items t).1 ∧ (updateC (updMeasureC items) items t).1.shape = t.shape :=
+  ⟨(updateC_spec _ items t hc).2.2, (updateC_spec _ items t hc).1⟩
+
 /-! ## one step -/
 
 /-- the value of a `set` is itself a coherent tensor / tensordict (what the constructors deliver) -/
@@ -71,7 +78,7 @@ def InScope (t : M) : Op → Prop
 every outcome. It is FALSE of the code for `batch_size` assignments that fail with a dim-name conflict
 (`setbatch_names_conflict_counterexample`, known finding C01-batch-size-names-conflict) — hence hypothesis `hn`
 and the name `_partial`. Proved: every modelled operation (set, batch_size, names, del_, rename_key_,
-create_nested, clear, pop, popitem, setdefault, refine_names) and every other outcome, accepted or raising, on the root or through any nested handle. -/
+create_nested, clear, pop, popitem, setdefault, refine_names, update with dict payloads) and every other outcome, accepted or raising, on the root or through any nested handle. -/
 theorem step_coherent_partial (t : M) (hc : Coherent t) (op : Op) (hv : ValOk op) (hs : InScope t op)
     (hn : ∀ h bs, op = .setBatch h bs → (step t op).2 ≠ .err .value) : Coherent (step t op).1 := by
   cases op with
@@ -95,6 +102,7 @@ theorem step_coherent_partial (t : M) (hc : Coherent t) (op : Op) (hv : ValOk op
   | popitem h => exact (atPath_keeps _ (fun n hn => popItem_spec n hn) h t hc).2.2
   | setdefault h key v => exact (atPath_keeps _ (fun n hn => setDefaultPath_spec key v n hn hv) h t hc).2.2
   | refineNames h ns => exact (atPath_keeps _ (fun n hn => refineNamesM_spec ns n hn) h t hc).2.2
+  | update h items => exact (atPath_keeps _ (fun n hn => updateC_spec _ items n hn) h t hc).2.2
 
 /-- histories: the side conditions along a run -/
 def Safe (t : M) : List Op → Prop
